@@ -1,5 +1,5 @@
 """C12 frequent items: purge-amount conservation chain, bound algebra, filter pairing, merge bookkeeping, probe displacement."""
-from astu import C, ctxt, gt_pair, eq_const, strip, strip_all, walk, walkp, txt, short, is_this_field, field_name, stmts_of, always_throws, functions_by, local_decls
+from astu import C, ctxt, gt_pair, eq_const, reach, reach_txt, ctext, strip, strip_all, walk, walkp, txt, short, is_this_field, field_name, stmts_of, always_throws, functions_by, local_decls
 from vlib.core import ob
 
 SK = "datasketches::frequent_items_sketch"
